@@ -26,7 +26,7 @@ func init() { register(c14{}) }
 func (c14) ID() string    { return "C14" }
 func (c14) Level() string { return "exploration" }
 func (c14) Rule() string {
-	return "(i) value oracle: frames of every type including type 0 are decoded with UnmarshalBinary on zero, NewX() and reused receivers, on packets ReadPacket returned earlier and on value copies of those and with ReadPacket from a stream; all accessors are snapshotted, the input slice is overwritten with 0xAA and then with random bytes, and the snapshot must not change; packets read earlier from a stream must not change when later ones are read. (ii) race oracle (race-detector build): after the decode one goroutine scribbles over the input slice while another reads every accessor and calls WriteTo/String/Dump with no synchronisation — any aliasing is a data race even where values coincide. (iii) pools of 4..16 packets (decoded ones and fresh NewX() values, which share package-level data) under random histories of decode-into / encode / setter operations (also setters of two packets given one argument slice with spare capacity, and the program overwriting byte slices that accessors handed out): every untouched packet keeps its snapshot after every step and a reference frame decodes to the same snapshot wherever in the history it is decoded. (iv) long runs over a working set of 64..4097 recurring names (topics, user-property keys, client ids), each decode compared with the reference reading; byte slices handed out by accessors are kept while their packets are dropped and collected, and must not change. (v) plain build, few worker processes: 3..32 goroutines decode their own streams of 32 KiB+1 .. 1 MiB PUBLISH frames in parallel, every payload compared with the bytes of its own frame. distinct = (type, receiver kind, frame digest) resp. history signature; non-trivial = frame body non-empty"
+	return "(i) value oracle: frames of every type including type 0 are decoded with UnmarshalBinary on zero, NewX() and reused receivers, on packets ReadPacket returned earlier and on value copies of those and with ReadPacket from a stream; all accessors are snapshotted, the input slice is overwritten with 0xAA and then with random bytes, and the snapshot must not change; packets read earlier from a stream must not change when later ones are read. (ii) race oracle (race-detector build): after the decode one goroutine scribbles over the input slice while another reads every accessor and calls WriteTo/String/Dump with no synchronisation — any aliasing is a data race even where values coincide. (iii) pools of 4..16 packets (decoded ones and fresh NewX() values, which share package-level data) under random histories of decode-into / encode / setter operations (also setters of two packets given one argument slice with spare capacity, and the program overwriting byte slices that accessors handed out): every untouched packet keeps its snapshot after every step and a reference frame decodes to the same snapshot wherever in the history it is decoded. (iv) long runs over a working set of 64..4097 recurring names (topics, user-property keys, client ids), each decode compared with the reference reading; byte slices handed out by accessors are kept while their packets are dropped and collected, and must not change. (vi) goroutines that share nothing build, encode and decode their own packets through constructors, setters and adders in parallel (plain and race build), each frame compared with what the same calls gave alone. (v) plain build, few worker processes: 3..32 goroutines decode their own streams of 32 KiB+1 .. 1 MiB PUBLISH frames in parallel, every payload compared with the bytes of its own frame. distinct = (type, receiver kind, frame digest) resp. history signature; non-trivial = frame body non-empty"
 }
 func (c14) Assumptions() []string {
 	return []string{"slices handed to setters are the caller's business; the property concerns buffers handed to UnmarshalBinary / read buffers", "decoding into a used packet may leave any state in that packet, but must not touch others"}
@@ -34,9 +34,9 @@ func (c14) Assumptions() []string {
 
 func (c14) Phases(env run.Env) []run.Phase {
 	if env.Thorough {
-		return []run.Phase{{Name: "overwrite-input", N: 400000}, {Name: "scribble-under-race-detector", Race: true, N: 60000}, {Name: "pools", N: 400000}, {Name: "working-set", N: 400}, {Name: "parallel-streams", N: 8}}
+		return []run.Phase{{Name: "overwrite-input", N: 400000}, {Name: "scribble-under-race-detector", Race: true, N: 60000}, {Name: "pools", N: 400000}, {Name: "working-set", N: 400}, {Name: "parallel-streams", N: 8}, {Name: "parallel-builders", N: 8}, {Name: "parallel-builders-race", Race: true, N: 64}}
 	}
-	return []run.Phase{{Name: "overwrite-input", N: 1600}, {Name: "scribble-under-race-detector", Race: true, N: 200}, {Name: "pools", N: 2000}, {Name: "working-set", N: 16}, {Name: "parallel-streams", N: 2}}
+	return []run.Phase{{Name: "overwrite-input", N: 1600}, {Name: "scribble-under-race-detector", Race: true, N: 200}, {Name: "pools", N: 2000}, {Name: "working-set", N: 16}, {Name: "parallel-streams", N: 2}, {Name: "parallel-builders", N: 2}, {Name: "parallel-builders-race", Race: true, N: 4}}
 }
 
 // c14WorkingSet decodes many PUBLISH frames whose topics, user-property keys
@@ -105,6 +105,10 @@ func (c14) Run(c *run.Ctx, phase, idx int) {
 	}
 	if phase == 4 {
 		c14ParallelStreams(c, r, idx)
+		return
+	}
+	if phase == 5 || phase == 6 {
+		c14ParallelBuilders(c, r, idx, phase == 6)
 		return
 	}
 	switch phase {
@@ -862,4 +866,100 @@ func c14ParallelStreams(c *run.Ctx, r *gen.RNG, idx int) {
 	c.Distinct(run.Hash64("parallel", itoa(idx)), true)
 	c.Count("parallel-streams", "goroutines="+itoa(G), 1)
 	c.Count("parallel-streams", "frames-decoded", int64(total))
+}
+
+// c14ParallelBuilders: goroutines that share nothing build, encode and decode
+// their OWN packets through constructors, setters and adders at the same
+// time. Each result is compared with what the same calls gave when they were
+// made alone beforehand: hidden package-level state behind a New*, Set* or
+// Add* call shows as a wrong frame here (and as a report in the race build).
+func c14ParallelBuilders(c *run.Ctx, r *gen.RNG, idx int, race bool) {
+	c.Concurrent(true)
+	G := []int{16, 32, 8, 4}[idx%4]
+	K := 24
+	rounds := 400
+	if race {
+		rounds = 12
+	} else if c.Thorough {
+		rounds = 2000
+	}
+	old := runtime.GOMAXPROCS(runtime.NumCPU())
+	defer runtime.GOMAXPROCS(old)
+	before := raceLogSize(c.RaceLogPrefix())
+	type job struct {
+		a    *ref.Packet
+		want []byte
+	}
+	jobs := make([][]job, G)
+	for g := range jobs {
+		for k := 0; k < K; k++ {
+			t := gen.Pick(r, ref.TSubscribe, ref.TSubscribe, ref.TUnsubscribe, ref.TPublish, ref.TConnect, ref.TSubAck, ref.TUnsubAck, ref.TConnAck, ref.TAuth, ref.TDisconnect, ref.TPubAck)
+			m := gen.RandomMask(r, t) | uint64(r.Uint64())
+			a := gen.Packet(r, t, m, gen.Small, wfDomain)
+			p, err := bind.Build(a)
+			if err != nil {
+				continue
+			}
+			out, _, werr, pan := libEncode(p)
+			if werr != nil || pan != nil {
+				continue
+			}
+			jobs[g] = append(jobs[g], job{a, out})
+		}
+	}
+	bad := make([]string, G)
+	done := make([]int, G)
+	var wg sync.WaitGroup
+	start := make(chan struct{})
+	for g := 0; g < G; g++ {
+		wg.Add(1)
+		go func(g int) {
+			defer wg.Done()
+			<-start
+			for round := 0; round < rounds && bad[g] == ""; round++ {
+				for _, j := range jobs[g] {
+					var out []byte
+					var err error
+					pan := mon.Guard(func() {
+						var p mq.Packet
+						p, err = bind.Build(j.a)
+						if err != nil {
+							return
+						}
+						w := mon.NewWriter()
+						_, err = p.WriteTo(w)
+						out = w.Buf
+					})
+					done[g]++
+					if pan != nil || err != nil || !bytes.Equal(out, j.want) {
+						bad[g] = fmt.Sprintf("goroutine %d, round %d: a %s built by the same calls as before encodes differently while other goroutines build their own packets (panic=%v err=%v, %d bytes instead of %d)", g, round, tname(int(j.a.Type)), pan, err, len(out), len(j.want))
+						break
+					}
+					if res := libRead(out); !res.Accepted() {
+						bad[g] = fmt.Sprintf("goroutine %d, round %d: own frame not read back: %v %v", g, round, res.Err, res.Panic)
+						break
+					}
+				}
+				if round%32 == 0 {
+					c.Tick()
+				}
+			}
+		}(g)
+	}
+	close(start)
+	wg.Wait()
+	total := 0
+	for g := range bad {
+		total += done[g]
+		if bad[g] != "" {
+			c.Violation("C14/parallel-builders/interference", bad[g], map[string]interface{}{"goroutines": G})
+			break
+		}
+	}
+	c.Eval(total)
+	c.Distinct(run.Hash64("builders", itoa(idx), fmt.Sprint(race)), true)
+	c.Count("parallel-builders", "packets-built", int64(total))
+	if race && raceLogSize(c.RaceLogPrefix()) > before {
+		c.Count("parallel-builders", "race-log-grew", 1)
+	}
 }
